@@ -79,6 +79,10 @@ class UUIDs(object):
 CLOCK = Clock()
 UUID4 = UUIDs()
 
+# what the module itself uses when nobody interferes (the fork scenario of C02 puts these back: the id
+# source under test must be eliot's own, whatever it is)
+ORIGINAL_UUID4 = getattr(_action, "uuid4", None)
+ORIGINAL_TIME = getattr(_action, "time", None)
 _action.time = CLOCK
 _action.uuid4 = UUID4
 
